@@ -273,7 +273,46 @@ func (e *Eng) BoolUnder(fn *ssa.Function, val ssa.Value, assume []LitM) (bool, b
 			return !l.Pos, true
 		}
 	}
+	// x == k is false when x is assumed to equal a different constant
+	for _, at := range []string{l.Atom, l.Alt} {
+		if lhs, k, ok := eqAtom(at); ok {
+			if ks := e.assumedEq(fn, assume)[lhs]; len(ks) > 0 && !ks[k] {
+				return !l.Pos, true
+			}
+		}
+	}
 	return false, false
+}
+
+// assumedEq: for the equality atoms "x == k" occurring in fn (branches and returned conditions)
+// that the assumptions assert, x ↦ {k}.
+func (e *Eng) assumedEq(fn *ssa.Function, assume []LitM) map[string]map[string]bool {
+	m := map[string]map[string]bool{}
+	add := func(l Lit) {
+		for _, a := range []string{l.Atom, l.Alt} {
+			lhs, k, ok := eqAtom(a)
+			if !ok {
+				continue
+			}
+			for _, am := range assume {
+				if am.F(Lit{Atom: a, Pos: true}) {
+					if m[lhs] == nil {
+						m[lhs] = map[string]bool{}
+					}
+					m[lhs][k] = true
+				}
+			}
+		}
+	}
+	for _, b := range fn.Blocks {
+		for _, l := range e.EdgeLits(b, 0) {
+			add(l)
+		}
+	}
+	for _, l := range e.retLits(fn) {
+		add(l)
+	}
+	return m
 }
 
 // Table evaluates a decision table on fn.  Every atom used in an assumption
@@ -331,10 +370,29 @@ func (o *Ob) Table(fn *ssa.Function, key string, rows []Row) {
 						}
 					}
 					vi := e.XI(fn, val)
-					ok := false
-					for _, a := range allowed {
-						if a == v || a == vi || strings.HasPrefix(a, "~") && (regexpMatch(a[1:], v) || regexpMatch(a[1:], vi)) {
+					// every way the value reads on the paths of this row (inner phis fixed by the path)
+					match := func(f string) bool {
+						for _, a := range allowed {
+							if a == f || strings.HasPrefix(a, "~") && regexpMatch(a[1:], f) {
+								return true
+							}
+						}
+						return false
+					}
+					ok := match(v)
+					if !ok && v != "true" && v != "false" {
+						xs := e.XsAtFix(r, ret, val, func(x ssa.Value) (bool, bool) { return e.BoolUnder(fn, x, row.Assume) })
+						ok = len(xs) > 0
+						for _, f := range xs {
+							if !match(f) {
+								ok = false
+							}
+						}
+						if !ok && match(vi) {
 							ok = true
+						}
+						if !ok {
+							v = strings.Join(xs, " | ")
 						}
 					}
 					o.Check(ok, rk+"|ret"+itoa(i), "row '"+row.Name+"': under "+under+" result #"+itoa(i)+" may be "+v+", expected "+strings.Join(allowed, " or "), ret)
@@ -490,4 +548,12 @@ func isUnreachablePanic(b *ssa.BasicBlock) bool {
 	}
 	k, ok := mi.X.(*ssa.Const)
 	return ok && k.Value != nil && strings.Contains(k.Value.ExactString(), "blocking select matched no case")
+}
+
+// fnFirst returns the first instruction of fn (a position for function-level findings).
+func fnFirst(fn *ssa.Function) ssa.Instruction {
+	if len(fn.Blocks) > 0 && len(fn.Blocks[0].Instrs) > 0 {
+		return fn.Blocks[0].Instrs[0]
+	}
+	return nil
 }
